@@ -36,7 +36,7 @@ def register(reg):
     )
     reg.contract(
         ALG + "borda/borda.py::BordaCount.compute_consensus_rankings#guard", props=["C14", "C12"],
-        fragment={"head": 1},
+        fragment={"head": "guard"},
         params=dict(self=Obj, dataset=Obj, scoring_scheme=Obj),
         fields={"dataset.is_complete": Bool},
         opaque_calls={PRED: {"fn": "DECLARED", "args": [], "ret": "bool", "recv": "self"}},
@@ -54,7 +54,7 @@ def register(reg):
     )
     reg.contract(
         ALG + "pickaperm/pickaperm.py::PickAPerm.compute_consensus_rankings#guard", props=["C14", "C10"],
-        fragment={"head": 1},
+        fragment={"head": "guard"},
         params=dict(self=Obj, dataset=Obj, scoring_scheme=Obj),
         fields={"dataset.is_complete": Bool},
         opaque_glue=True,
